@@ -30,8 +30,9 @@ namespace Givaro {
 
 
     template <class Domain>
-    inline typename Poly1Dom<Domain,Dense>::Rep& Poly1Dom<Domain,Dense>::axpy  (Rep& r, const Type_t& a, const Rep& x, const Rep& y) const
+    inline typename Poly1Dom<Domain,Dense>::Rep& Poly1Dom<Domain,Dense>::axpy  (Rep& r, const Type_t& a0, const Rep& x, const Rep& y) const
     {
+        const Type_t a(a0); // a0 may be a coefficient of the destination
         if (&r == &x || &r == &y) { Rep T; this->axpy(T, a, x, y); return this->assign(r, T); } // r may be the same object as x or y
         typename Rep::const_iterator ix = x.begin(), iy = y.begin();
         if (y.size() > x.size()) {
@@ -61,7 +62,8 @@ namespace Givaro {
     }
 
     template <class Domain>
-    inline typename Poly1Dom<Domain,Dense>::Rep& Poly1Dom<Domain,Dense>::axpyin(Rep& r, const Type_t& a, const Rep& x) const{
+    inline typename Poly1Dom<Domain,Dense>::Rep& Poly1Dom<Domain,Dense>::axpyin(Rep& r, const Type_t& a0, const Rep& x) const{
+        const Type_t a(a0); // a0 may be a coefficient of the destination
         typename Rep::const_iterator ix = x.begin();
         if (x.size() > r.size()) {
             for(typename Rep::iterator ir = r.begin() ; ir != r.end(); ++ir, ++ix)
@@ -83,7 +85,8 @@ namespace Givaro {
     }
 
     template <class Domain>
-    inline typename Poly1Dom<Domain,Dense>::Rep& Poly1Dom<Domain,Dense>::maxpy  (Rep& r, const Type_t& a, const Rep& b, const Rep& c) const{
+    inline typename Poly1Dom<Domain,Dense>::Rep& Poly1Dom<Domain,Dense>::maxpy  (Rep& r, const Type_t& a0, const Rep& b, const Rep& c) const{
+        const Type_t a(a0); // a0 may be a coefficient of the destination
         size_t sC = c.size();
         size_t sB = b.size();
         size_t sR = r.size();
@@ -110,7 +113,8 @@ namespace Givaro {
         return this->subin(r, this->mul(tmp,a,b));
     }
     template <class Domain>
-    inline typename Poly1Dom<Domain,Dense>::Rep& Poly1Dom<Domain,Dense>::maxpyin(Rep& r, const Type_t& a, const Rep& b) const{
+    inline typename Poly1Dom<Domain,Dense>::Rep& Poly1Dom<Domain,Dense>::maxpyin(Rep& r, const Type_t& a0, const Rep& b) const{
+        const Type_t a(a0); // a0 may be a coefficient of the destination
         Rep tmp; this->init(tmp);
         return this->subin(r, this->mul(tmp,a,b));
     }
@@ -121,7 +125,8 @@ namespace Givaro {
         return this->subin(this->mul(r, a, x),y);
     }
     template <class Domain>
-    inline typename Poly1Dom<Domain,Dense>::Rep& Poly1Dom<Domain,Dense>::axmy  (Rep& r, const Type_t& a, const Rep& x, const Rep& y) const{
+    inline typename Poly1Dom<Domain,Dense>::Rep& Poly1Dom<Domain,Dense>::axmy  (Rep& r, const Type_t& a0, const Rep& x, const Rep& y) const{
+        const Type_t a(a0); // a0 may be a coefficient of the destination
         if (&r == &y) { Rep T; this->axmy(T, a, x, y); return this->assign(r, T); } // r may be the same object as y
         return this->subin(this->mul(r, a, x),y);
     }
@@ -133,8 +138,9 @@ namespace Givaro {
         return this->negin(r);
     }
     template <class Domain>
-    inline typename Poly1Dom<Domain,Dense>::Rep& Poly1Dom<Domain,Dense>::axmyin (Rep& r, const Type_t& a, const Rep& x) const
+    inline typename Poly1Dom<Domain,Dense>::Rep& Poly1Dom<Domain,Dense>::axmyin (Rep& r, const Type_t& a0, const Rep& x) const
     {
+        const Type_t a(a0); // a0 may be a coefficient of the destination
         this->maxpyin(r, a, x);
         return this->negin(r);
     }
